@@ -159,7 +159,7 @@ from rtflite.encoding.unified_encoder import UnifiedRTFEncoder
              "subline headings, and each page receives its own slice of the restored frame"))
     # O4: contiguity validation (the functions put keys into sets: keys range over a small alphabet + null, which is
     # enough because contiguity only depends on the equality pattern of the keys)
-    for levels, n, size in (((1, 3, 3), (1, 4, 3), (2, 3, 2), (3, 3, 1)) if quick else ((1, 3, 3), (1, 4, 4), (1, 5, 3), (2, 3, 2), (2, 4, 2), (3, 3, 2), (3, 4, 1))):
+    for levels, n, size in (((1, 3, 3), (1, 4, 3), (2, 3, 2), (3, 3, 1)) if quick else ((1, 3, 3), (1, 4, 4), (1, 5, 3), (2, 3, 2), (2, 4, 2), (3, 3, 1), (3, 4, 1))):
         names = ["G", "H", "K"][:levels]
         obs.append(Ob(
             oid="O4.sorting.l%d.n%d" % (levels, n), sig=asig(n, levels), pre=apre(n, levels, size), header=HDR13, timeout=T,
